@@ -274,8 +274,20 @@ def _whole(chk, N, partial_only=False):
             if kind != "partial":
                 return
             # (b) H_new == H_old o Phi  mod degree N+1
+            g_before = polyx.list_to_dict(G)
             Phi = cl._lie_expansion(G, N, psi, clmo, 1e-30, inverse=False, sign=None, restrict=False)
             Phii = cl._lie_expansion(G, N, psi, clmo, 1e-30, inverse=True, sign=None, restrict=False)
+            # the generating functions are cached by the pipeline and shared by every later expansion: they must come
+            # back untouched, and asking again must give the same series (no call-history dependence)
+            ok, k = polyx.d_equal(polyx.list_to_dict(G), g_before)
+            if not ok:
+                raise Refuted("_lie_expansion mutates the generating functions it is given (monomial %s): every later "
+                              "expansion built from the cached list is wrong" % (k,), "", inputs={"history": ["forward", "inverse"]})
+            Phi2 = cl._lie_expansion(G, N, psi, clmo, 1e-30, inverse=False, sign=None, restrict=False)
+            for i in range(6):
+                ok, k = polyx.d_equal(polyx.list_to_dict(Phi2[i]), polyx.list_to_dict(Phi[i]))
+                if not ok:
+                    raise Refuted("forward expansion differs when requested again after an inverse one (component %d)" % i, "")
             rows = [polyx.list_to_dict(Phi[i]) for i in range(6)]
             rowsi = [polyx.list_to_dict(Phii[i]) for i in range(6)]
             one = alg.const(1)
@@ -317,6 +329,45 @@ def _whole(chk, N, partial_only=False):
             "B3 exact ring normal form", lambda: run("full", (1.5, 7 / 3, 2.2), keep_q if N <= 4 else keep_t))
 
 
+def _pipeline_wiring(chk):
+    """HamiltonianPipeline.get_lie_expansions(inverse=b): the series is built from the cached PARTIAL generating functions
+    with inverse == b (order of the generators), sign == -1 iff b, restrict=False (full 6-D map) - shared with C09"""
+    import hiten.algorithms.hamiltonian.pipeline as pl
+    from pyvc.core import real_self
+
+    def th():
+        for b in (False, True):
+            calls = []
+            saved = pl._lie_expansion
+            pl._lie_expansion = lambda *a, **k: calls.append((a, k)) or "EXPANSIONS"
+            try:
+                gf = _Obj(poly_G="PG", degree=5, dynamics=_Obj(psi="PSI", clmo="CLMO"))
+                kinds = []
+                me = real_self(pl.HamiltonianPipeline, get_generating_functions=lambda kind: kinds.append(kind) or gf)
+                out = pl.HamiltonianPipeline.get_lie_expansions(me, inverse=b, tol=3e-15)
+            finally:
+                pl._lie_expansion = saved
+            if out != "EXPANSIONS" or len(calls) != 1 or kinds != ["partial"]:
+                raise Refuted("get_lie_expansions does not return _lie_expansion of the partial generating functions", str((kinds, calls)))
+            a, k = calls[0]
+            import inspect
+            names = ["poly_G_total", "N_max", "psi", "clmo", "tol"]
+            got = dict(zip(names, a))
+            got.update(k)
+            sig = inspect.signature(saved)
+            inverse = got.get("inverse", sig.parameters["inverse"].default)
+            sign = got.get("sign", sig.parameters["sign"].default)
+            restrict = got.get("restrict", sig.parameters["restrict"].default)
+            if inverse is not b or (sign not in (None, -1 if b else 1)) or restrict is not False or a[:4] != ("PG", 5, "PSI", "CLMO") \
+                    or got.get("tol") != 3e-15:
+                raise Refuted(f"get_lie_expansions(inverse={b}) builds the series with inverse={inverse}, sign={sign}, "
+                              f"restrict={restrict}: the inverse map must apply -G_n in DESCENDING order", str(got),
+                              inputs={"inverse": b})
+    chk.obl("HamiltonianPipeline.get_lie_expansions(inverse=b): _lie_expansion of the cached partial generating functions "
+            "with inverse=b, sign=-1 iff b, restrict=False, the caller's tol", "K2 wiring",
+            ["hiten.algorithms.hamiltonian.pipeline:HamiltonianPipeline.get_lie_expansions"], "B4 exact evaluation", th)
+
+
 def run(chk):
     loader.install()
     thorough = chk.tier == "thorough"
@@ -329,6 +380,7 @@ def run(chk):
     chk.trust("T7 Lie-series calculus beyond the degree bound", "sympy ring arithmetic over Q(i)")
     chk.not_decided("numerical cancellation residue", "behaviour near resonances (|divisor| < 1e-14)")
     _selection(chk)
+    _pipeline_wiring(chk)
     _homological(chk)
     _series(chk)
     _whole(chk, 5 if thorough else 4)
